@@ -172,6 +172,10 @@ class Experiment:
         if result_file and Path(result_file).exists():
             CobaContext.logger.log("Restoring Results")
             restored = Result.from_file(result_file)
+            if ".gz" not in str(result_file):
+                with open(result_file,'rb+') as f:
+                    #a partly written final record must not swallow the next record
+                    if f.seek(0,2) > 0 and f.seek(-1,2) >= 0 and f.read(1) != b'\n': f.write(b'\n')
         else:
             restored = None
 
